@@ -66,6 +66,9 @@ def split_checks(out, tier):
         gm.append([int(rnd.random() < 0.85), nid, mark])
     gres = run_jobs("drive_sched.py", [{"kind": "groupmark", "cases": gm[i:i + 200]} for i in range(0, len(gm), 200)], nproc=4)
     gflat = [x for chunk in gres for x in (chunk if isinstance(chunk, list) else [])]
+    if len(gflat) != len(gm):
+        out.broke("driver:groupmark", [c for c in gres if not (isinstance(c, list) and c and isinstance(c[0], list))][:1])
+        gm = gm[:len(gflat)]
     corr.compare("pytest_collection_modifyitems + _split_scope (loadgroup, worker and controller halves)", "groupmark", gm, gflat,
                  nontrivial=lambda i, o: bool(i[2]) and bool(i[0]))
     for (lg, nid, mark), got in zip(gm, gflat):
